@@ -692,6 +692,8 @@ class FakeSock(_Named):
         self.blocked_writes = 0            # number of send() calls that raise BlockingIOError first
         self.reset = False                 # recv raises ConnectionResetError
         self.stalled = False               # the peer's window is full: the socket is not writable (send raises EAGAIN)
+        self.full = False                  # a short write has just filled the kernel buffer: another send() before the next
+                                           # WRITE event reported by select() raises EAGAIN (as a real non-blocking socket does)
 
     def setblocking(self, f):
         pass
@@ -736,9 +738,13 @@ class FakeSock(_Named):
         if self.blocked_writes > 0 and data:
             self.blocked_writes -= 1
             raise BlockingIOError(errno.EAGAIN, "Resource temporarily unavailable")
+        if self.full and data:
+            raise BlockingIOError(errno.EAGAIN, "Resource temporarily unavailable")
         n = len(data)
         if self.write_plan and data:
             n = max(1, min(n, self.write_plan.pop(0)))
+            if n < len(data):
+                self.full = True
         self.sent += data[:n]
         return n
 
@@ -839,7 +845,11 @@ class FakeSelector(_Named):
 
     def select(self, timeout=None):
         cur_sched().yield_op(("select", self, timeout), write=False)
-        return self._ready()
+        ready = self._ready()
+        for k, m in ready:
+            if m & _sel.EVENT_WRITE:
+                k.fileobj.full = False          # reported writable: the kernel buffer has drained
+        return ready
 
     def close(self):
         self.map.clear()
